@@ -68,6 +68,7 @@ void _ZN3tbb6detail2r124cache_aligned_deallocateEPv(u8* p) { live_allocs--; VP_A
  * notify_bounded_queue_monitor(monitors, tag, ticket): monitor.notify(predicate_leq(ticket)): wakes every sleeper of monitor `tag`
  *   whose context is <= ticket (unsigned comparison, as predicate_leq does). */
 int bq_sleeping[3]; u64 bq_tag[3], bq_target[3]; int bq_waits, bq_sleeps, bq_notifies, bq_wakes;
+int bq_aborted[3], bq_aborts; u8 TI_ABORT;
 u8* _ZN3tbb6detail2r126allocate_bounded_queue_repEm(u64 n) {
   VP_ASSERT(n == sizeof(rep_t) && !rep_used, "unexpected representation size"); rep_used = 1; return (u8*)&REP;
 }
@@ -75,21 +76,56 @@ void _ZN3tbb6detail2r126wait_bounded_queue_monitorEPNS1_18concurrent_monitorEmlR
     struct S_class_tbb__detail__r1__concurrent_monitor* mon, u64 tag, u64 target, struct S_class_tbb__detail__d1__delegate_base* pred) {
   unsigned t = vp_cur;
   __CPROVER_assume(t < 3);
+#if ABORTS
+  if (bq_aborted[t]) { bq_aborted[t] = 0; vp_throw_user(&TI_ABORT); return; }   /* woken by abort_all: the wait throws user_abort */
+#endif
   if (bq_sleeping[t]) { VP_BLOCK(); return; }            /* still asleep: nobody notified this sleeper */
   bq_waits++;
-  if (vp_call_pred(pred)) { bq_sleeping[t] = 1; bq_tag[t] = tag; bq_target[t] = target; bq_sleeps++; VP_BLOCK(); return; }
+  int keep_waiting = (int)vp_call_pred(pred);
+#if ABORTS
+  if (vp_exc) return;                                    /* the predicate threw user_abort (abort counter changed): propagates out of wait */
+#endif
+  if (keep_waiting) { bq_sleeping[t] = 1; bq_tag[t] = tag; bq_target[t] = target; bq_sleeps++; VP_BLOCK(); return; }
 }
+#if ABORTS
+/* abort_bounded_queue_monitors: concurrent_monitor::abort_all on both monitors: every CURRENT sleeper is woken and its wait throws
+   user_abort (commit_wait sees my_aborted) without re-evaluating the predicate */
+void _ZN3tbb6detail2r128abort_bounded_queue_monitorsEPNS1_18concurrent_monitorE(struct S_class_tbb__detail__r1__concurrent_monitor* mon) {
+  bq_aborts++;
+  for (int t = 0; t < 3; t++) if (bq_sleeping[t]) { bq_sleeping[t] = 0; bq_aborted[t] = 1; vp_changed = 1; }
+}
+void _ZdlPv(u8* p) { VP_ASSERT(0, "operator delete: nothing here is heap-allocated with new"); }
+#endif
 void _ZN3tbb6detail2r128notify_bounded_queue_monitorEPNS1_18concurrent_monitorEmm(struct S_class_tbb__detail__r1__concurrent_monitor* mon, u64 tag, u64 ticket) {
   bq_notifies++;
   for (int t = 0; t < 3; t++) if (bq_sleeping[t] && bq_tag[t] == tag && bq_target[t] <= ticket) { bq_sleeping[t] = 0; bq_wakes++; vp_changed = 1; }
 }
 #endif
+#ifndef FAULTS
+#define FAULTS 0
+#endif
+#ifndef ABORTS
+#define ABORTS 0
+#endif
+#if FAULTS
+/* fault injection: the element copy constructor (called by micro_queue::push after the ticket was taken and the lane turn acquired)
+   throws at a solver-chosen call, at most FAULTS times, only while the threads run */
+int faults_on, nfaults; u8 TI_USER;
+void vp_ctor_fault(void) { if (faults_on && nfaults < FAULTS && vp_nd_bool()) { nfaults++; vp_throw_user(&TI_USER); } }
+#endif
 /* r1::throw_exception: with exceptions compiled out the real one aborts; reaching it without an injected fault is a failure */
-void _ZN3tbb6detail2r115throw_exceptionENS0_2d012exception_idE(u32 id) { VP_ASSERT(0, "throw_exception reached (bad_last_alloc) although no allocation failed"); }
+#if ABORTS
+u8 TI_TBB[16];
+void _ZN3tbb6detail2r115throw_exceptionENS0_2d012exception_idE(u32 id) {
+  VP_ASSERT(id == 3 /* exception_id::user_abort */, "throw_exception: only user_abort is expected"); vp_throw_user(&TI_TBB[id & 15]);
+}
+#else
+void _ZN3tbb6detail2r115throw_exceptionENS0_2d012exception_idE(u32 id) { VP_ASSERT(0, "throw_exception reached (bad_last_alloc / user_abort) although no fault or abort was injected"); }
+#endif
 
 /* ---- history */
 #define MAXOPS 6
-enum { K_NONE = 0, K_PUSH = 1, K_POP = 2, K_BPOP = 3, K_TRYPUSH = 4 };   /* push, try_pop, (bounded) blocking pop, try_push */
+enum { K_NONE = 0, K_PUSH = 1, K_POP = 2, K_BPOP = 3, K_TRYPUSH = 4, K_ABORT = 5 };   /* push, try_pop, (bounded) blocking pop, try_push, abort */
 #define IS_PUSH(k) ((k) == K_PUSH || (k) == K_TRYPUSH)
 #define IS_POP(k) ((k) == K_POP || (k) == K_BPOP)
 struct op { int used, kind, done, ok; unsigned inv, res, val; } H[MAXOPS];   /* index = tid*2 + slot */
@@ -119,7 +155,10 @@ static int try_perm(const int* perm, int n) {
   for (int x = 0; x < n; x++) {
     const struct op* o = &H[perm[x]];
     int k = KIND[perm[x]];
-    if (k == K_PUSH) { if (tail - head >= CAP) return 0; content[tail++] = o->val; }     /* a (blocking) push takes effect only when there is room */
+    if (k == K_ABORT) continue;
+    if ((k == K_PUSH || k == K_BPOP) && !o->ok) continue;   /* the call threw (injected constructor fault / user_abort): no effect */
+    if (k == K_PUSH) {
+      if (tail - head >= CAP) return 0; content[tail++] = o->val; }     /* a (blocking) push takes effect only when there is room */
     else if (k == K_TRYPUSH) { if (tail - head < CAP) { match &= o->ok; content[tail++] = o->val; } else match &= !o->ok; }
     else if (k == K_BPOP) { if (head >= tail) return 0; match &= (o->val == content[head]); head++; }   /* a blocking pop takes effect only on a non-empty queue */
     else if (head < tail) { match &= (o->ok && o->val == content[head]); head++; }
@@ -160,10 +199,16 @@ int main(void) {
   for (int i = 0; i < PRE_PUSH; i++) vp_q_push(&Q, PREVAL(i));
   for (int i = 0; i < PRE_POP; i++) { u32 v = 0; int ok = vp_q_try_pop(&Q, &v); VP_ASSERT(ok && v == PREVAL(i), "sequential pre-state pop returned the wrong item"); }
 
+#if FAULTS
+  faults_on = 1;
+#endif
   THR(a_start)(&Q, 0, OA0, mkval(1), OA1, mkval(2));
   THR(b_start)(&Q, 1, OB0, mkval(3), OB1, mkval(4));
 #if NT == 3
   THR(c_start)(&Q, 2, OC0, mkval(5), OC1, mkval(6));
+#endif
+#ifdef PREBLOCK
+  vp_cur = 0; VP_RUNMAX(THR(a))      /* scenario option: thread a first runs until it finishes or blocks (e.g. sleeps in a full/empty queue) */
 #endif
   for (int r = 0; r < ROUNDS; r++) {
     VP_RUNT(THR(a), 0) VP_RUNT(THR(b), 1)
@@ -183,7 +228,7 @@ int main(void) {
   int npush = 0, npop_ok = 0;
   for (int i = 0; i < MAXOPS; i++) if (KIND[i] != K_NONE) {
     VP_ASSERT(H[i].used && H[i].done && H[i].kind == KIND[i], "operation never invoked / never responded");
-    if (IS_PUSH(KIND[i])) { if (H[i].ok) npush++; } else if (H[i].ok) npop_ok++;
+    if (IS_PUSH(KIND[i])) { if (H[i].ok) npush++; } else if (IS_POP(KIND[i]) && H[i].ok) npop_ok++;
   }
   /* every popped value was pushed (pre-state or by a push invoked before the pop responded), and at most once */
   for (int i = 0; i < MAXOPS; i++) if (IS_POP(KIND[i]) && H[i].ok) {
@@ -195,26 +240,52 @@ int main(void) {
       VP_ASSERT(H[j].val != H[i].val, "the same item was popped twice");
   }
   VP_ASSERT(Q_REP == &REP, "my_queue_representation changed (the unit treats it as immutable while threads run)");
+  int nfailed = 0;
+#if FAULTS || ABORTS
+  for (int i = 0; i < MAXOPS; i++) if (KIND[i] == K_PUSH && !H[i].ok) nfailed++;
+#if FAULTS
+  faults_on = 0;
+  VP_ASSERT(nfailed == nfaults, "a push reported failure without an injected fault, or swallowed one");
+#endif
+#if ABORTS
+  /* user_abort is delivered only to calls that overlap an abort() */
+  for (int i = 0; i < MAXOPS; i++) if ((KIND[i] == K_PUSH || KIND[i] == K_BPOP) && !H[i].ok) {
+    int just = 0;
+    for (int j = 0; j < MAXOPS; j++) if (KIND[j] == K_ABORT && H[j].inv < H[i].res) just = 1;
+    VP_ASSERT(just, "push/pop threw although no abort() had been invoked");
+  }
+  for (int t = 0; t < 3; t++) VP_ASSERT(!bq_aborted[t], "abort wake-up never consumed");
+#endif
+  /* a failed push consumed its ticket and left an invalid slot: tail counts attempts; head + invalid entries account for the rest */
+  VP_ASSERT(vp_q_invalid(&Q) <= (u64)nfailed, "more invalid entries than failed pushes");
+#else
   VP_ASSERT(vp_q_invalid(&Q) == 0, "n_invalid_entries != 0 without any failed push");
+  VP_ASSERT(vp_q_head(&Q) == (u64)(PRE_POP + npop_ok), "head ticket != number of successful pops");
+#endif
   VP_ASSERT((long)vp_q_size(&Q) == (long)(PRE_PUSH - PRE_POP + npush - npop_ok), "size() != pushes - successful pops at quiescence");
-  VP_ASSERT(vp_q_tail(&Q) == (u64)(PRE_PUSH + npush), "tail ticket != number of successful pushes");
+  VP_ASSERT(vp_q_tail(&Q) == (u64)(PRE_PUSH + npush + nfailed), "tail ticket != number of push attempts");
 #if BOUNDED
   VP_ASSERT(PRE_PUSH - PRE_POP + npush - npop_ok <= CAP, "more items stored than the capacity");
   for (int t = 0; t < 3; t++) VP_ASSERT(!bq_sleeping[t], "a finished thread is still registered as a sleeper");
 #endif
-  VP_ASSERT(vp_q_head(&Q) == (u64)(PRE_POP + npop_ok), "head ticket != number of successful pops");
   for (int l = 0; l < 8; l++) VP_ASSERT(vp_q_lane_ok(&Q, l), "lane invariant broken at quiescence (counters / page list / page mutex)");
   VP_ASSERT(vp_q_empty(&Q) == (PRE_PUSH - PRE_POP + npush - npop_ok == 0), "empty() wrong at quiescence");
 
   /* final sequential drain with the real try_pop: nothing lost, FIFO order of the remainder */
   vp_cur = 0; vp_thr_drain_start(&Q, DRAIN_N);
   VP_RUNMAX(vp_thr_drain)
+#if FAULTS || ABORTS
+  /* a try_pop that meets an invalid entry goes round its retry loop: with unroll 1 that back edge ends the slice (the loop contains the
+     lane spin loops, so it is even classified as a busy-wait): give the drain one more slice per possible invalid entry */
+  for (int i = 0; i < (FAULTS ? FAULTS : NPUSHOPS); i++) { VP_RUNMAX(vp_thr_drain) }
+#endif
   VP_ASSERT(vp_thr_drain_fin, "final drain got stuck: an item that was pushed can never be popped (lane hand-off lost)");
   __CPROVER_assume(vp_thr_drain_fin);
   {
     int expect = PRE_PUSH - PRE_POP + npush - npop_ok;
     VP_ASSERT(ndrained == (expect < DRAIN_N ? expect : DRAIN_N), "items lost or invented: drain count != pushes - pops");
     VP_ASSERT((long)vp_q_size(&Q) == (long)(expect - ndrained), "size() wrong after the drain");
+    if (expect < DRAIN_N) VP_ASSERT(vp_q_invalid(&Q) == 0 && vp_q_head(&Q) == vp_q_tail(&Q), "tickets or invalid entries left after the queue was drained empty");
   }
   VP_ASSERT(linearizable(), "history is not linearizable to a sequential FIFO queue");
 #if ITEMS_PER_PAGE == 1
